@@ -43,7 +43,12 @@ ITEMS = [
     ('\\uc[o]{\\ua}', [('use', '\\uc'), ('use', '\\ua')]),
     ('\\newtheorem{ux}{Thm}', [('def', 'ux', [])]),
     ('\\renewcommand{\\ub}[1]{#1\\uc}', [('def', '\\ub', [('use', '\\uc')])]),
+    # arguments that the filter only looks at as text (length, phantom content)
+    ('A\\hspace{\\ua}B', [('use', '\\ua')]),
+    ('\\phantom{\\ub x}', [('use', '\\ub')]),
 ]
+# phrase replacements must not touch the list of names
+REPL = ['\\ua & \\replaced\n', 'ux & uy\n', '\\ub \\uc & \n']
 PACKS = {'': set(), '*': {'xcolor', 'amsthm', 'glossaries', 'amsmath'}, 'xcolor': {'xcolor'}, 'amsthm,amsmath': {'amsthm', 'amsmath'},
          'xcolor,': {'xcolor'}, 'amsthm,,amsmath': {'amsthm', 'amsmath'}, 'cleveref,*': {'xcolor', 'amsthm', 'glossaries', 'amsmath'},
          '*,cleveref': {'xcolor', 'amsthm', 'glossaries', 'amsmath'}}
@@ -110,11 +115,17 @@ class C19:
         for seq in itertools.product(range(n), repeat=3):
             for pack in (['*'] if tier == 'quick' else list(PACKS)):
                 yield [list(seq), pack]
+        for k in (1, 2):
+            for seq in itertools.product(range(n), repeat=k):
+                yield [list(seq), '*', 'repl']
 
     def judge(self, case):
-        seq, pack = case
+        seq, pack = case[:2]
         src = build(seq)
-        o = impl.run_filter(src, {'pack': pack, 'lang': 'en', 'unkn': True})
+        opts = {'pack': pack, 'lang': 'en', 'unkn': True}
+        if len(case) > 2:
+            opts['repl'] = REPL
+        o = impl.run_filter(src, opts)
         if o.kind != 'ok':
             return {'viol': [{'clause': 'returns', 'sig': 'C19:no-result', 'detail': {'source': src, 'info': o.info}}], 'out': o.info, 'nt': True, 'tr': 1}
         txt, nums = o.result
@@ -147,7 +158,7 @@ class C19:
         d = os.path.join(core.scratch_dir(), 'unk')
         os.makedirs(d, exist_ok=True)
         k = 1201 + seed % 37
-        picks = [c for i, c in enumerate(self.cases('quick', seed)) if i % k == seed % k][:30]
+        picks = [c[:2] for i, c in enumerate(self.cases('quick', seed)) if i % k == seed % k][:30]
         viol = []
         n = 0
         for seq, pack in picks:
